@@ -816,6 +816,10 @@ impl<T: Float> Unpaired<T> {
             sa2_na + sb2_nb;
         let std_err_mean = // $\sqrt{s_a^2 / n_a + s_b^2 / n_b}$
             sum_s2_n.sqrt();
+        if !mean_difference.is_finite() || !std_err_mean.is_finite() {
+            // NaN or infinite observations (or sums that overflowed)
+            return Err(CIError::InvalidInputData);
+        }
         let effective_dof = // $ \frac{ (s_a^a / n_a + s_b^2 / n_b)^2 }{ \frac{1}{n_a+1} \left(\frac{s_a^2}{n_a}\right)^2 + \frac{1}{n_b+1} \left(\frac{s_b^2}{n_b}\right)^2 } - 2$
             // NB: computed from the shares of the two samples in the variance, as the fourth
             // powers of the data easily overflow (or underflow) the range of the float type
